@@ -142,6 +142,12 @@ def reconstruct(repo, out_dir, decoy=False):
             'Rule\tVerifL%s\t%d\tmax\t-\tNov\tSun>=1\t2:00\t0\tS' % (tag, yr),
         ]
         zones += ['Zone\tVerif/Late%s\t4:00\tVerifL%s\tL%%sT' % (tag, tag)]
+    # a Rule whose TYPE column (ignored by zic since 2020b, and by this compiler) is not '-'
+    rules += [
+        'Rule\tVerifT\t2001\tmax\teven\tMar\tlastSun\t2:00\t1:00\tD',
+        'Rule\tVerifT\t2001\tmax\todd\tOct\tlastSun\t2:00\t0\tS',
+    ]
+    zones += ['Zone\tVerif/Typed\t5:00\tVerifT\tY%sT']
     if decoy:
         # a DIFFERENT source with the same names: every Zone name gets the eras of the next zone (cyclic), so that
         # anything an earlier compilation remembered per name (sizes, ids, strings) is wrong for the real source
